@@ -33,6 +33,7 @@ T=[
  ('C11','fewer than two variables no longer emits a nil node','for k := range udt / for _ := range udt / for k = range udt / for range udt over an enumerator whose Next() yields (key, value, ok) left a nil node in the generated assignment: WriteTo failed with ast.Walk: unexpected node type <nil> (scenarios enum/en2/define k, define _, assign kk, no variables)'),
  ('C11','all blank is emitted with = instead of :=','ForRange("_") / ForRange("_", "_") over an iterator-function enumerator (and over slices, maps, channels, integers) emitted for _ := range x, which Go rejects: no new variables on left side of := (scenarios enum/enf1/define _, enum/enf2/define _,_)'),
  ('C06','overloaded assignment operator','an overloaded assignment operator (methods XGo_AddAssign__0, XGo_AddAssign__1, … on *V) was never applicable: `v += x` matched every candidate against (receiver, x) and reported "too many arguments" although candidate 0 accepts x (operator families, 162 uses in the first quick run)'),
+ ('C09','type-parameter constraint of a generic type declaration','a package referenced only from the constraint of a type parameter of a generic TYPE declaration (type G[P util.I] int) was not imported: the import-marking walk skipped TypeSpec.TypeParams (sole-reference position sweep)'),
  ('C01','index expressions check the index operand','Index/IndexRef emitted a[i] without checking i: string or float index into a slice, index not assignable to the map key type, negative or fractional constant index (3 000 atoms)'),
 ]
 lines=open('/verif/KNOWN_FINDINGS.txt').read().splitlines()
